@@ -774,33 +774,32 @@ namespace awkward {
   do_parse(HANDLER& handler, rj::Reader& reader, STREAM& stream) {
     int64_t number = 0;
     while (stream.Peek() != 0) {
+      // skip the whitespace between documents
+      while (stream.Peek() == ' '  ||  stream.Peek() == '\n'  ||
+             stream.Peek() == '\r'  ||  stream.Peek() == '\t') {
+        stream.Take();
+      }
+      if (stream.Peek() == 0) {
+        break;
+      }
       handler.reset_moved();
       bool fully_parsed = reader.Parse<rj::kParseStopWhenDoneFlag>(stream, handler);
-      if (handler.moved()) {
-        if (!fully_parsed) {
-          if (stream.Peek() == 0) {
-            throw std::invalid_argument(
-                std::string("incomplete JSON object at the end of the stream")
-                + FILENAME(__LINE__));
-          }
-          else {
-            throw std::invalid_argument(
-              std::string("JSON File error at char ")
-              + std::to_string(stream.Tell()) + std::string(": \'")
-              + stream.Peek() + std::string("\'")
+      if (!fully_parsed) {
+        if (stream.Peek() == 0) {
+          throw std::invalid_argument(
+              std::string("incomplete JSON object at the end of the stream")
               + FILENAME(__LINE__));
-          }
         }
         else {
-          number++;
+          throw std::invalid_argument(
+            std::string("JSON File error at char ")
+            + std::to_string(stream.Tell()) + std::string(": \'")
+            + stream.Peek() + std::string("\'")
+            + FILENAME(__LINE__));
         }
       }
-      else if (stream.Peek() != 0) {
-        throw std::invalid_argument(
-          std::string("JSON File error at char ")
-          + std::to_string(stream.Tell()) + std::string(": \'")
-          + stream.Peek() + std::string("\'")
-          + FILENAME(__LINE__));
+      else {
+        number++;
       }
     }
 
